@@ -32,6 +32,7 @@ import LW.Proofs.C07
 import LW.Proofs.C07LimitGridTendsto
 import LW.Proofs.C07LimitState
 import LW.Proofs.C07LimitDetLaw
+import LW.Proofs.C07Accept
 
 namespace LW.C07
 
@@ -279,5 +280,49 @@ theorem detectorSampleR_law {Ω : Type*} [MeasurableSpace Ω] {μ : MeasureTheor
     μ {ω | (detectorSampleR d s ((List.range T).map fun i => V i ω)).1 = t} =
       ENNReal.ofReal (((((detectorKernel d s).filter (·.1 == t)).map (·.2)).sum : ℚ) : ℝ) :=
   Proofs.C07.detectorSampleR_law' V hindep hlaw d h0 h1 h2 h3 s T hT t
+
+/-! ### (D) the rejection loop of `sample_N_inputs` as a whole -/
+
+/-- one pass of the loop body: selection, detector, acceptance; returns the unread tape -/
+abbrev iterOutcome := Proofs.C07.iterOutcome
+
+/-- RENEWAL DECOMPOSITION (model level, every distribution / detector / tape): `sample_N_inputs`
+on the variates `u :: us` is the outcome of one pass (kept if accepted) followed by
+`sample_N_inputs` on `us` started on the tape that pass left unread.  Hence the list returned for
+`N` inputs is the list of accepted pass outcomes, in order, and its length is the number of accepted
+passes. -/
+theorem sampleNInputs_renewal (dist : List (FState × Rat)) (d : Det) (outHer : Dict)
+    (rules : List Rule) (minDet : Nat) (u : Rat) (us : List Rat) (tape : List Rat) :
+    sampleNInputs dist d outHer rules minDet (u :: us) tape
+      = (iterOutcome dist d outHer rules minDet u tape).1.toList
+        ++ sampleNInputs dist d outHer rules minDet us
+            (iterOutcome dist d outHer rules minDet u tape).2 :=
+  Proofs.C07.sampleNInputs_cons dist d outHer rules minDet u us tape
+
+/-- STRONG LAW FOR THE REJECTION LOOP: if the outcomes `Y 0, Y 1, …` of the passes (`none` =
+rejected) are pairwise independent and identically distributed, then almost surely the ACCEPTED
+FRACTION tends to the probability that one pass is accepted and, when that is positive, the share
+of a state `s` among the accepted passes tends to the conditional probability
+`P(pass returns s) / P(pass accepted)`.
+PARTIAL with respect to the property: that the passes of a loop consuming ONE i.i.d. uniform tape
+in order are i.i.d. (each pass reads a fresh block whose length depends only on that block) is the
+hypothesis here, not a theorem; the law of a single pass is given by `inverseCdfR_uniform_measure`
+and `detectorSampleR_law`. -/
+theorem rejection_loop_frequencies {Ω : Type*} [MeasurableSpace Ω] {μ : MeasureTheory.Measure Ω}
+    [MeasureTheory.IsProbabilityMeasure μ] {β : Type*} [MeasurableSpace (Option β)]
+    [MeasurableSingletonClass (Option β)] [DecidableEq β]
+    (Y : ℕ → Ω → Option β) (hmeas : ∀ i, Measurable (Y i))
+    (hindep : Pairwise fun i j => ProbabilityTheory.IndepFun (Y i) (Y j) μ)
+    (hident : ∀ i, ProbabilityTheory.IdentDistrib (Y i) (Y 0) μ μ) (s : β)
+    (hpos : 0 < μ.real (Y 0 ⁻¹' {o | o.isSome})) :
+    ∀ᵐ ω ∂μ,
+      Filter.Tendsto
+        (fun n : ℕ => (((Finset.range n).filter fun i => (Y i ω).isSome).card : ℝ) / n)
+        Filter.atTop (nhds (μ.real (Y 0 ⁻¹' {o | o.isSome}))) ∧
+      Filter.Tendsto (fun n : ℕ =>
+          (((Finset.range n).filter fun i => Y i ω = some s).card : ℝ)
+            / ((Finset.range n).filter fun i => (Y i ω).isSome).card)
+        Filter.atTop (nhds (μ.real (Y 0 ⁻¹' {some s}) / μ.real (Y 0 ⁻¹' {o | o.isSome}))) :=
+  Proofs.C07.rejection_loop_frequencies Y hmeas hindep hident s hpos
 
 end LW.C07
